@@ -121,6 +121,17 @@ pub fn all_operations() {
                 }
             }
         }
+        6 => {
+            // one replica drops the flattened array (its descriptor is deleted) while the other edits the array and
+            // the root object: the surviving root may refer to a descriptor whose winner is a deletion
+            let mut d = Map::new();
+            d.insert("title".to_string(), serde_json::Value::from(val()));
+            a.m.update(d).expect("update a");
+            a.m.commit(None).expect("commit a");
+            b.m.update(doc_with(&["b", "a", "c"], &["y".to_string(), "x".to_string(), "z".to_string()], "u")).expect("update b");
+            b.m.commit(None).expect("commit b");
+            a.pull(&b);
+        }
         _ => {
             // after time travel to the first block
             a.m.update(any_doc(k, 0)).expect("update");
